@@ -77,6 +77,10 @@ def run_job(job):
             d.update(extra or {})
             return d
         if o.exc is not None:
+            from ..harness import exc_origin
+            if exc_origin(o.exc) == "harness":
+                ob.fail_harness(f"harness raised: {o.exc!r}")
+                continue
             paths["raise"] += 1
             ob.reach("raise-path", pc)
             ob.prove("raise=>ValueError", [], isinstance(o.exc, ValueError), cex=lambda m: dict(kind="exc", exc=repr(o.exc)))
